@@ -3,13 +3,42 @@
    reset : a new diagram; its denotation (under every assignment) is computed once
    simp  : one pub fn of simplify.rs run on a copy of it: L2 Sound (Den(post) = Den(pre)),
            NoPanic, Terminates (the watchdog did not fire), StaysWF;
-           L1: post is quiescent for the strategy the function implements *)
+           L1: post is quiescent for the strategy the function implements
+   rbegin / rstep / rend (hook H3): one simplifier run with an event after EVERY rule application, pack,
+           x_to_z, fuse_gadgets, remove_gadget_pi, each with the diagram after it.  L1 (drift):
+             StepOK    the matcher of the rule holds on the previous diagram and the logged diagram is the
+                       specification's Apply of that rule with those arguments (exact scalar and scalar
+                       factors, up to the names of new vertices); pack = the same diagram or Packed;
+                       x_to_z = XToZ; the batch steps = FuseGadgets / RemoveGadgetPi up to the member kept
+             Schedule  the rule belongs to the strategy the function implements (StratRules)
+             EndIsLast the returned diagram is the diagram after the last step
+           i.e. the run is a path of SimpSteps of spec/Simp.tla (whose every path MC_Simp explores);
+           L2 for these runs: NoPanic, Terminates, Sound at the end as for `simp` *)
 EXTENDS TraceLib, ZXSem, Simp, FiniteSets, FiniteSetsExt
 
-VARIABLES l, cur, den0, vset, viol, drift, stats
-vars == <<l, cur, den0, vset, viol, drift, stats>>
-Init == l = 1 /\ cur = EmptyG /\ den0 = <<>> /\ vset = {} /\ viol = <<>> /\ drift = <<>>
-        /\ stats = [diagrams |-> 0, runs |-> 0, sound |-> 0, nontrivial |-> 0]
+VARIABLES l, cur, den0, vset, run, nsteps, viol, drift, stats
+vars == <<l, cur, den0, vset, run, nsteps, viol, drift, stats>>
+Init == l = 1 /\ cur = EmptyG /\ den0 = <<>> /\ vset = {} /\ run = EmptyG /\ nsteps = 0 /\ viol = <<>> /\ drift = <<>>
+        /\ stats = [diagrams |-> 0, runs |-> 0, sound |-> 0, nontrivial |-> 0, step_runs |-> 0, steps |-> 0, steps_ok |-> 0, packs_renaming |-> 0]
+\* the Rust name of the unchecked rule -> the rule of spec/Rules.tla
+RuleOf(r) == CASE r = "remove_id_unchecked" -> "remove_id" [] r = "local_comp_unchecked" -> "local_comp"
+               [] r = "spider_fusion_unchecked" -> "spider_fusion" [] r = "pivot_unchecked" -> "pivot"
+               [] r = "gen_pivot_unchecked" -> "gen_pivot_reduce" [] r = "remove_single_unchecked" -> "remove_single"
+               [] r = "remove_pair_unchecked" -> "remove_pair" [] OTHER -> r
+FnRules(fn) == CASE fn = "id_simp" -> {"remove_id"} [] fn = "local_comp_simp" -> {"local_comp"} [] fn = "spider_simp" -> {"spider_fusion"}
+                 [] fn = "pivot_simp" -> {"pivot"} [] fn = "gen_pivot_simp" -> {"gen_pivot_reduce"} [] fn = "scalar_simp" -> {"remove_single", "remove_pair"}
+                 [] fn = "flow_simp" -> StratRules("flow") \cup {"x_to_z"} [] fn = "interior_clifford_simp" -> StratRules("interior") \cup {"x_to_z"}
+                 [] fn = "clifford_simp" -> StratRules("clifford") \cup {"x_to_z"}
+                 [] fn = "full_simp" -> StratRules("full") \cup {"x_to_z", "fuse_gadgets", "remove_gadget_pi"}
+                 [] fn = "fuse_gadgets" -> {"fuse_gadgets"} [] OTHER -> {}
+StepOK(rule, args, g, post) ==
+  CASE rule = "pack" -> post = g \/ post = Packed(g)
+    [] rule = "x_to_z" -> post = XToZ(g)
+    [] rule = "fuse_gadgets" -> CanFuseGadgets(g) /\ post \in FuseGadgetsSet(g)
+    [] rule = "remove_gadget_pi" -> CanRemoveGadgetPi(g) /\ post \in RemoveGadgetPiSet(g)
+    [] OTHER -> /\ rule \in Rules1 \cup Rules2 /\ \A i \in 1..Len(args) : args[i] \in g.vs
+                /\ Check(rule, g, args)
+                /\ \E sp \in ApplySet(rule, g, args) : ~sp.panic /\ SameUpToNew(sp.g, post, g.vs)
 StratOf(fn) == CASE fn = "flow_simp" -> "flow" [] fn = "interior_clifford_simp" -> "interior"
                  [] fn = "clifford_simp" -> "clifford" [] fn = "full_simp" -> "full" [] OTHER -> "none"
 Step(e) ==
@@ -17,12 +46,12 @@ Step(e) ==
          LET g == FromAbs(e.pre) IN
          /\ cur' = g /\ vset' = VarsOf(g) /\ den0' = DenV(g, VarsOf(g))
          /\ stats' = [stats EXCEPT !.diagrams = @ + 1]
-         /\ UNCHANGED <<viol, drift>>
+         /\ UNCHANGED <<run, nsteps, viol, drift>>
     [] e.k = "simp" ->
          IF e.res = "panic" THEN
-           viol' = Append(viol, <<l, "NoPanic">>) /\ stats' = [stats EXCEPT !.runs = @ + 1] /\ UNCHANGED <<cur, den0, vset, drift>>
+           viol' = Append(viol, <<l, "NoPanic">>) /\ stats' = [stats EXCEPT !.runs = @ + 1] /\ UNCHANGED <<cur, den0, vset, run, nsteps, drift>>
          ELSE IF e.res = "timeout" THEN
-           viol' = Append(viol, <<l, "Terminates">>) /\ stats' = [stats EXCEPT !.runs = @ + 1] /\ UNCHANGED <<cur, den0, vset, drift>>
+           viol' = Append(viol, <<l, "Terminates">>) /\ stats' = [stats EXCEPT !.runs = @ + 1] /\ UNCHANGED <<cur, den0, vset, run, nsteps, drift>>
          ELSE
            LET post == FromAbs(e.post)
                vs2 == vset \cup VarsOf(post)
@@ -35,8 +64,31 @@ Step(e) ==
               /\ drift' = IF quiet THEN drift ELSE Append(drift, <<l, "NotQuiescent", e.fn>>)
               /\ stats' = [stats EXCEPT !.runs = @ + 1, !.sound = @ + (IF sound THEN 1 ELSE 0),
                                         !.nontrivial = @ + (IF post # cur THEN 1 ELSE 0)]
-              /\ UNCHANGED <<cur, den0, vset>>
+              /\ UNCHANGED <<cur, den0, vset, run, nsteps>>
+    [] e.k = "rbegin" -> run' = cur /\ nsteps' = 0 /\ stats' = [stats EXCEPT !.step_runs = @ + 1] /\ UNCHANGED <<cur, den0, vset, viol, drift>>
+    [] e.k = "rstep" ->
+         LET post == FromAbs(e.post)
+             r == RuleOf(e.rule)
+             ok == StepOK(r, e.args, run, post)
+             sched == r = "pack" \/ r \in FnRules(e.fn)
+         IN /\ drift' = drift \o (IF ok THEN <<>> ELSE <<<<l, "StepOK", e.fn, r>>>>) \o (IF sched THEN <<>> ELSE <<<<l, "Schedule", e.fn, r>>>>)
+            /\ run' = post /\ nsteps' = nsteps + 1
+            /\ stats' = [stats EXCEPT !.steps = @ + 1, !.steps_ok = @ + (IF ok /\ sched THEN 1 ELSE 0),
+                                      !.packs_renaming = @ + (IF r = "pack" /\ post # run THEN 1 ELSE 0)]
+            /\ UNCHANGED <<cur, den0, vset, viol>>
+    [] e.k = "rend" ->
+         IF e.res # "ok" THEN
+           viol' = Append(viol, <<l, IF e.res = "panic" THEN "NoPanic" ELSE "Terminates">>) /\ UNCHANGED <<cur, den0, vset, run, nsteps, drift, stats>>
+         ELSE
+           LET post == FromAbs(e.post)
+               vs2 == vset \cup VarsOf(post)
+               d0 == IF vs2 = vset THEN den0 ELSE DenV(cur, vs2)
+               sound == DenV(post, vs2) = d0
+               last == nsteps >= 400 \/ post = run
+           IN /\ viol' = IF sound THEN viol ELSE Append(viol, <<l, "Sound">>)
+              /\ drift' = IF last THEN drift ELSE Append(drift, <<l, "EndIsLast", e.fn>>)
+              /\ UNCHANGED <<cur, den0, vset, run, nsteps, stats>>
 Next == \/ /\ l <= NLines /\ Step(Rec[l]) /\ l' = l + 1
         \/ /\ l = NLines + 1 /\ Report(l, viol, drift, stats) /\ l' = l + 1
-           /\ UNCHANGED <<cur, den0, vset, viol, drift, stats>>
+           /\ UNCHANGED <<cur, den0, vset, run, nsteps, viol, drift, stats>>
 =============================================================================
